@@ -1,0 +1,26 @@
+//go:build verif
+
+// Package verifhooks (build tag "verif" only) re-exports internal packages to
+// the external correspondence harness. It adds no behaviour.
+package verifhooks
+
+import (
+	"archive/tar"
+	"io"
+
+	"github.com/hashicorp/go-slug/internal/ignorefiles"
+	"github.com/hashicorp/go-slug/internal/unpackinfo"
+)
+
+type Ruleset = ignorefiles.Ruleset
+type ExcludesResult = ignorefiles.ExcludesResult
+type VerifRule = ignorefiles.VerifRule
+type UnpackInfo = unpackinfo.UnpackInfo
+
+func ParseIgnoreFileContent(r io.Reader) (*Ruleset, error) { return ignorefiles.ParseIgnoreFileContent(r) }
+func LoadPackageIgnoreRules(dir string) (*Ruleset, error)   { return ignorefiles.LoadPackageIgnoreRules(dir) }
+func DefaultRuleset() *Ruleset                             { return ignorefiles.DefaultRuleset }
+func DefaultFlags() []bool                                 { return ignorefiles.VerifDefaultFlags() }
+func NewUnpackInfo(dst string, h *tar.Header) (UnpackInfo, error) {
+	return unpackinfo.NewUnpackInfo(dst, h)
+}
